@@ -9,7 +9,13 @@ from .. import core, kgen, sx, try_kdef
 THEOREMS = ['C20.scope_injective', 'C20.scope_stable', 'C20.chain_claims', 'C20.chain_links', 'C20.mismatch_refused',
             'C20.convert_subst', 'C20.kore_conversion_text_is_the_model', 'C20.rewrite_event_text_is_the_model',
             'C20.trace_text_is_the_model', 'C20.text_chain', 'C20.kore_definition_text_is_the_model',
-            'C20.proof_hints_text_is_the_model', 'C20.k_pipeline_text_is_the_model', 'C20.modules_share_one_counter']
+            'C20.proof_hints_text_is_the_model', 'C20.k_pipeline_text_is_the_model', 'C20.modules_share_one_counter',
+            # the LAST clause as a theorem (Props/C20b.lean, KMod*.lean, KoreModule.lean): the module of an accepted trace (own axioms incl.
+            # functional assumptions, imports Substitution + KoreLemmas) is accepted by the checker model, its bytes by the translated Rust verify
+            'C20.conv_in_fragment', 'C20.conv_ground_closed', 'C20.converted_step_in_fragment', 'C20.functional_assumption_ok',
+            'C20.nonground_value_refused', 'C20.k_module_side', 'C20.k_module_accepted', 'C20.k_module_accepted_general',
+            'C20.k_module_bytes_accepted', 'C20.k_module_u8_accepted', 'C20.k_module_sound', 'C20.Example.hypotheses_hold', 'C20.Example.accepted',
+            'C20.Example.sound']
 
 
 def unhex(h):
@@ -18,7 +24,7 @@ def unhex(h):
 
 def run(rep):
     rng = random.Random(rep.seed * 1000003 + 20)
-    ok, detail = core.proof_gate(rep, 'Pi2.Props.C20', THEOREMS)
+    ok, detail = core.proof_gate(rep, 'Pi2.Props.C20b', THEOREMS)
     core.rust_build()
     quick = rep.tier == 'quick'
     findings = []
@@ -143,6 +149,25 @@ def run(rep):
                 if not same_modulo_symbols(jg + jc, gamma + list(reversed(claims))):
                     findings.append({'key': 'journal', 'request': l[:2000], 'journal': jr[:800],
                                      'what': 'the published axioms / claims are not the declared axioms (imports first) and the claims of the steps (in reverse order)'})
+    # ---- 3b. the axioms of the modules ExecutionProofExp imports (Substitution: func_subst_axiom; KoreLemmas > Definedness: ceil(x0)) are
+    #          transcribed by hand in Pi2/KoreModule.lean (`kImports`, hypothesis-free part of C20.k_module_accepted): compare them with the
+    #          first axioms every REAL trace module publishes
+    ki = core.lean_gen(['kimports'])
+    n_imports = 0
+    if ki is not None and ki[0].startswith('(kimports'):
+        want = [sx.dump(t) for t in sx.parse(ki[0])[0][1:]]
+        for l, a in zip(ml, mo):
+            if a.startswith('(module'):
+                xa = sx.parse(a)[0]
+                if not xa[4][1:]:
+                    continue        # no step: from_proof_hints returns a plain ProofExp without imports (nothing is claimed)
+                got = [sx.dump(t) for t in xa[3][1:]][:len(want)]
+                n_imports += 1
+                if not same_modulo_symbols(got, want):
+                    findings.append({'key': 'model-imports', 'request': l[:1500], 'python': ' '.join(got)[:1200], 'model': ' '.join(want)[:1200],
+                                     'what': 'correspondence: the axioms of the imported modules (Substitution, KoreLemmas/Definedness) differ from Pi2/KoreModule.lean kImports'})
+                    break
+    rep.coverage.update({'imported_axioms_compared': n_imports})
     # ---- 4. the sort-parameter id range (known limitation): 101 variables and a sort variable
     w = worlds[0]
     f, ar = w.ctors[0]
